@@ -9,6 +9,9 @@ comparison or a write to `self` inside `__iter__` does not.
 namespace DirectVerif.Bridge.C13
 open DirectVerif DirectVerif.Sampler DirectVerif.Gen.C13
 
+theorem natCast_beq (a b : Nat) : ((a : Int) == (b : Int)) = (a == b) := by
+  rw [Bool.eq_iff_iff]; simp only [beq_iff_eq]; omega
+
 /-! ### `chunks` -/
 
 theorem chunks_si_eq (n k idx : Int) (hk : 0 ≤ k) : chunks_si n k idx = chunkStartI n k idx := by
@@ -51,12 +54,7 @@ theorem chunkStopI_cast (n k idx : Nat) :
 
 theorem bvs_yield_cond_eq (lenb bs idx nv : Nat) :
     bvs_yield_cond lenb bs idx nv = yieldCond lenb bs (some nv) idx := by
-  simp only [bvs_yield_cond, yieldCond, isVolEnd]
-  congr 1
-  by_cases h : lenb = bs
-  · subst h; simp
-  · have : ¬ ((lenb : Int) = (bs : Int)) := by omega
-    simp [h, this]
+  simp only [bvs_yield_cond, yieldCond, isVolEnd, natCast_beq]
 
 theorem bvs_advance_cond_eq (lenb bs idx nv : Nat) :
     bvs_advance_cond lenb bs idx nv = isVolEnd (some nv) idx := by
@@ -67,7 +65,7 @@ theorem bvs_end_value_eq (start stop bs : Int) : bvs_end_value start stop bs = s
 /-- `-((-a) // b) = (a + b - 1) / b` for `a ≥ 0`, `b > 0` -/
 theorem ceil_neg_fdiv (a b : Int) (hb : 0 < b) : -(Int.fdiv (-a) b) = (a + b - 1) / b := by
   rw [Int.fdiv_eq_ediv_of_nonneg _ (by omega : (0 : Int) ≤ b)]
-  have h1 := Int.emod_add_ediv (a + b - 1) b
+  have h1 := Int.emod_add_mul_ediv (a + b - 1) b
   have h2 := Int.emod_nonneg (a + b - 1) (by omega : b ≠ 0)
   have h3 := Int.emod_lt_of_pos (a + b - 1) hb
   have key : (-a) / b = -((a + b - 1) / b) ∧ (-a) % b = b - 1 - (a + b - 1) % b := by
@@ -100,11 +98,7 @@ theorem seq_iter_is_indices_eq : seq_iter_is_indices = true := by decide
 theorem concat_elem_eq (i off : Int) : concat_elem i off = i + off := rfl
 
 theorem concat_yield_cond_eq (lenb bs : Nat) : concat_yield_cond lenb bs = (lenb == bs) := by
-  simp only [concat_yield_cond]
-  by_cases h : lenb = bs
-  · subst h; simp
-  · have : ¬ ((lenb : Int) = (bs : Int)) := by omega
-    simp [h, this]
+  simp only [concat_yield_cond, natCast_beq]
 
 theorem cumsum_append_eq (e s : Int) : cumsum_append e s = e + s := rfl
 theorem cumsum_next_eq (e s : Int) : cumsum_next e s = s + e := rfl
@@ -116,8 +110,7 @@ theorem concat_offset_eq (sizes : List Nat) (idx : Nat) :
   | zero => simp
   | succ i =>
     have h1 : ((((i + 1 : Nat) : Int)) == 0) = false := by
-      have : ¬ (((i + 1 : Nat) : Int) = 0) := by omega
-      simp [this]
+      rw [beq_eq_false_iff_ne]; omega
     have h2 : (((i + 1 : Nat) : Int) - 1).toNat = i := by omega
     simp only [h1, Bool.false_eq_true, if_false, h2, Nat.add_one_ne_zero, Nat.add_sub_cancel]
     rw [List.getD_eq_getElem?_getD, List.getD_eq_getElem?_getD, List.getElem?_map]
